@@ -13,6 +13,7 @@ pub mod c14;
 pub mod c16;
 pub mod c17;
 pub mod c18;
+pub mod c19;
 
 pub type Extra = HashMap<String, String>;
 
@@ -32,6 +33,7 @@ pub fn registry() -> Vec<Check> {
         Check { id: "C13", run: c13::run, replay: c13::replay, worker: None },
         Check { id: "C14", run: c14::run, replay: c14::replay, worker: None },
         Check { id: "C16", run: c16::run, replay: c16::replay, worker: None },
+        Check { id: "C19", run: c19::run, replay: c19::replay, worker: None },
         Check { id: "C18", run: c18::run, replay: c18::replay, worker: None },
         Check { id: "C17", run: c17::run, replay: c17::replay, worker: Some(c17::worker) },
     ]
